@@ -1,4 +1,6 @@
 pub mod c01;
+pub mod c02;
+pub mod c03;
 pub mod common;
 
 use crate::evidence::Ctx;
@@ -6,6 +8,8 @@ use crate::evidence::Ctx;
 pub fn dispatch(ctx: &Ctx) -> Option<i32> {
     Some(match ctx.id {
         "C01" => c01_check(ctx),
+        "C02" => c02_check(ctx),
+        "C03" => c03_check(ctx),
         _ => return None,
     })
 }
@@ -21,7 +25,7 @@ use std::{collections::BTreeMap, sync::Arc, time::Duration};
 fn c01_check(ctx: &Ctx) -> i32 {
     let n = ctx.tier.pick(20_000, 1_500_000);
     let budget = Duration::from_secs(ctx.tier.pick(40, 420));
-    let opts = Arc::new(c01::Opts { cancel_pct: 20, allow_ports: true, max_ops: 8 });
+    let opts = Arc::new(c01::Opts { prop: "C01", cancel_pct: 20, allow_ports: true, max_ops: 8, stalls: false, pending_violation: false });
     let o2 = opts.clone();
     let agg = shard_runs(ctx, "main", n, budget, Duration::from_secs(60), Arc::new(move |run, seed| c01::run_one(run, seed, &o2)));
     let rep = Report {
@@ -32,6 +36,50 @@ fn c01_check(ctx: &Ctx) -> i32 {
             "the transport is ordered and reliable (simnet never reorders within a direction)".into(),
             "tokio current_thread runtime with paused clock; schedules are those produced by simnet delays, H1 deferral and tokio's seeded select".into(),
         ],
+        exhaustive: false,
+        min_nontrivial: ctx.tier.pick(200, 2000),
+        extra: BTreeMap::new(),
+    };
+    finish(ctx, agg, rep)
+}
+
+fn c02_check(ctx: &Ctx) -> i32 {
+    let budget = Duration::from_secs(ctx.tier.pick(20, 200));
+    let opts = Arc::new(c01::Opts { prop: "C02", cancel_pct: 25, allow_ports: true, max_ops: 8, stalls: true, pending_violation: false });
+    let mut agg = shard_runs(ctx, "mix", ctx.tier.pick(8_000, 800_000), budget, Duration::from_secs(60), Arc::new(move |run, seed| c01::run_one(run, seed, &opts)));
+    let agg2 = shard_runs(ctx, "window", ctx.tier.pick(8_000, 800_000), budget, Duration::from_secs(60), Arc::new(c02::run_one));
+    agg.merge(agg2);
+    let full = agg.counter("runs_reaching_full_window");
+    let mut extra = BTreeMap::new();
+    extra.insert("w3_evaluations".into(), serde_json::json!(agg.counter("w3_evals")));
+    extra.insert("w4_evaluations".into(), serde_json::json!(agg.counter("w4_evals")));
+    extra.insert("max_outstanding_over_limit_permille".into(), serde_json::json!(agg.maxv("max_w3_ratio_permille")));
+    let mut rep = Report {
+        level: "exploration",
+        rule: "one case = one seeded run; phase 'mix' = C01-style traffic with cancellations and transport stalls, phase 'window' = one port driven into the credit limit (credit direction starved until quiescence / receiver never polled / port batches / empty messages / cancelled history). Non-trivial iff W3 was evaluated with outstanding >= 50% of the peer's buffer (window phase) or the C01 rule (mix phase). Distinct by hash(cfg classes, variant, sizes, interleaving signature).".into(),
+        explanation: "W2 (chunk size), W3 (outstanding <= advertised receive buffer, with credits counted from the moment the credit frame was handed to the sender) and W4 (credits granted <= cost handed to the granting endpoint) were evaluated at every Data/PortData/PortCredits frame of every run; the maximum outstanding/limit ratio must reach 1.0 for the run set to count.".into(),
+        assumptions: vec!["transport ordered and reliable".into(), "reference decoder (harness/src/refcodec.rs) states the wire format".into()],
+        exhaustive: false,
+        min_nontrivial: ctx.tier.pick(200, 2000),
+        extra,
+    };
+    if full == 0 || agg.maxv("max_w3_ratio_permille") < 1000 {
+        rep.min_nontrivial = u64::MAX; // trivial run set: the window was never filled
+    }
+    finish(ctx, agg, rep)
+}
+
+fn c03_check(ctx: &Ctx) -> i32 {
+    let budget = Duration::from_secs(ctx.tier.pick(20, 200));
+    let opts = Arc::new(c01::Opts { prop: "C03", cancel_pct: 35, allow_ports: true, max_ops: 8, stalls: true, pending_violation: true });
+    let mut agg = shard_runs(ctx, "mix", ctx.tier.pick(8_000, 800_000), budget, Duration::from_secs(60), Arc::new(move |run, seed| c01::run_one(run, seed, &opts)));
+    let agg2 = shard_runs(ctx, "scen", ctx.tier.pick(8_000, 800_000), budget, Duration::from_secs(60), Arc::new(c03::run_one));
+    agg.merge(agg2);
+    let rep = Report {
+        level: "exploration",
+        rule: "one case = one seeded run; phase 'mix' = C01-style traffic with 35% cancelled sends, try_send and transport stalls where every receiver consumes; phase 'scen' = connect(k ports) with left-over credits in 4..12 byte buffers / port blocking with queues of length 1 / exhaust-then-cancel behind a stalled transport followed by a full-window probe. Distinct by hash(cfg classes, variant, parameters, interleaving signature); every scen run is non-trivial, mix runs by the C01 rule.".into(),
+        explanation: "Liveness is judged only at quiescence of a healthy, fully released network under the virtual clock: every send/connect whose receiver consumed everything must have completed; any PortData frame with zero ports is a zero-progress frame.".into(),
+        assumptions: vec!["quiescence = progress counter unchanged across a virtual 1 ms sleep on a paused current_thread runtime".into()],
         exhaustive: false,
         min_nontrivial: ctx.tier.pick(200, 2000),
         extra: BTreeMap::new(),
